@@ -481,6 +481,15 @@ def checkModelParams (sig : List Param) (keys : List String) : Except CheckErr U
         | .error e => .error e
         | .ok () => checkKeys inst kwNames hasVarKw keys
 
+/-- `_check_model_params(init_func, model_params, extra_keywords)`: `extra` are the keywords the caller of the
+    constructor passes anyway (`("simulator",)` under a `SimulatorController`, whose reset calls
+    `Model(simulator=simulator, **model_parameters)`): a parameter of that name would be passed twice; apart from
+    that they take part in the call like the parameters -/
+def checkModelParamsExtra (sig : List Param) (extra keys : List String) : Except CheckErr Unit :=
+  match extra.find? (keys.contains ·) with
+  | some k => .error (.invalid k)
+  | none => checkModelParams sig (extra ++ keys)
+
 /-- the values of `model_params` as far as `check_param_is_fixed` looks at them -/
 inductive PyVal where
   | slider                         -- a `Slider` instance
@@ -498,9 +507,10 @@ def isFixed : PyVal → Bool
 def splitModelParams (ps : List (String × PyVal)) : List (String × PyVal) × List (String × PyVal) :=
   (ps.filter (fun kv => !isFixed kv.2), ps.filter (fun kv => isFixed kv.2))
 
-/-- the check as `ModelCreator` runs it (fix P2): against `{**fixed_params, **user_params}` -/
-def creatorCheck (sig : List Param) (ps : List (String × PyVal)) : Except CheckErr Unit :=
+/-- the check as `ModelCreator` runs it (fix P2): against `{**fixed_params, **user_params}`, together with the
+    keywords `extra` the controller passes itself (fix P3) -/
+def creatorCheck (sig : List Param) (ps : List (String × PyVal)) (extra : List String := []) : Except CheckErr Unit :=
   let (user, fixed) := splitModelParams ps
-  checkModelParams sig (fixed.map (·.1) ++ user.map (·.1))
+  checkModelParamsExtra sig extra (fixed.map (·.1) ++ user.map (·.1))
 
 end Mesa.Viz
